@@ -38,3 +38,27 @@ Theorem C12_block_advances :
     (rank (fst (fst (block sha sigok zdec base c g d))) < rank g)%nat.
 Proof. exact block_rank. Qed.
 Print Assumptions C12_block_advances.
+
+(* Static half, regenerated from library/src on every run (gen/LockSites.v: every call in every
+   non-test function, with whether it sits lexically inside a with_config / with_state / with_mut_state
+   closure, inside the with_updater_thread_lock closure, inside a thread::spawn closure).
+   For EVERY call made inside a config-lock closure by the thread holding the lock: it is not a network
+   callback and cannot reach one through any chain of calls on that thread; it does not take the config
+   lock again and cannot reach a function that does; it does not take the update lock and cannot reach a
+   function that does.  This covers code paths no test or schedule exercises. *)
+From UV Require Import LockOrder.
+From UVG Require Import LockSites.
+Theorem C12_static_lock_discipline :
+  forall s, In s gen_calls -> cs_cfg s = true -> cs_spawn s = false ->
+    (is_net (cs_callee s) = false /\ ~ Reaches gen_calls is_net (cs_callee s)) /\
+    (mem (cs_callee s) lockers = false /\ ~ Reaches gen_calls (fun c => mem c lockers) (cs_callee s)) /\
+    (String.eqb upd_locker (cs_callee s) = false /\ ~ Reaches gen_calls (String.eqb upd_locker) (cs_callee s)).
+Proof. apply (lock_discipline_spec gen_calls gen_fns). vm_compute. reflexivity. Qed.
+Print Assumptions C12_static_lock_discipline.
+
+(* non-vacuity: the table does contain calls under the lock, network calls and lock acquisitions *)
+Example C12_static_nonvacuous :
+  existsb cs_cfg gen_calls = true /\ existsb (fun s => is_net (cs_callee s)) gen_calls = true /\
+  existsb (fun s => mem (cs_callee s) lockers) gen_calls = true /\
+  existsb (fun s => String.eqb upd_locker (cs_callee s)) gen_calls = true.
+Proof. vm_compute. repeat split. Qed.
